@@ -1,7 +1,8 @@
 """C20 — Markov boundaries shield their node; colliders are the nodes with two arrowheads."""
+import json
 import random
 
-from cai_causal_graph.identify_utils import identify_colliders
+from cai_causal_graph.identify_utils import identify_colliders, identify_markov_boundary
 
 from .. import common as C
 from .. import dagsweep as D
@@ -42,6 +43,7 @@ def check(run, tier, seed):
                      describe='identify_markov_boundary for every node (and for the Skeleton: the neighbours); the shielding and minimality '
                               'criteria are evaluated by the Coq d-separation checker on the set the implementation returned.')
     rng = random.Random(seed + 5)
+    D.order_independence(run, 'C20', ORDER_FNS, sizes=(4, 5), sample6=0 if tier == 'quick' else 300, rng=random.Random(seed + 47))
     cases = []
     for n in (2, 3):
         cases += [(n, mg) for mg in D.all_mixed(n, TYPES)]
@@ -67,6 +69,30 @@ def check(run, tier, seed):
                 viol += 1
                 run.violation(dict(n=n, mixed_edges=mg, unshielded_only=u, got=got, expected=exp,
                                    why='identify_colliders differs from "at least two arrowheads pointing in"'), note='colliders')
+    # the same graphs reached through an edit history (re-typed, removed and re-added, extra edges added and removed)
+    n_edit = n_skip = 0
+    for n, mg in cases:
+        g, steps = D.build_mixed_edited(n, mg, rng)
+        if g is None:
+            n_skip += 1
+            continue
+        n_edit += 1
+        ix = {D.NAMES[i]: i for i in range(n)}
+        for u in (False, True):
+            try:
+                got = sorted(ix[x] for x in identify_colliders(g, unshielded_only=u))
+            except Exception as e:  # noqa: BLE001
+                got = f'raised {type(e).__name__}'
+            exp = declarative_colliders(n, mg, u)
+            if got != exp and viol < 2:
+                viol += 1
+                run.violation(dict(n=n, mixed_edges=mg, edit_steps=steps, unshielded_only=u, got=got, expected=exp,
+                                   why='identify_colliders on a graph reached through an edit history differs from "at least two arrowheads '
+                                       'pointing in" on its final edges', replay_cmd='./check C20 --replay <this file>'), note='colliders after edits')
+    run.coverage['mixed_graphs_reached_by_edit_histories'] = n_edit
+    run.coverage['edit_histories_refused_by_the_library'] = n_skip
+    run.oblige(f'identify_colliders on {n_edit} mixed graphs reached through edit histories = the declarative colliders of the final edges',
+               viol == 0, '')
     # for a Skeleton the Markov boundary is exactly the neighbours, whatever the edge types of the graph behind it
     from cai_causal_graph.identify_utils import identify_markov_boundary
     for n, mg in cases[:600]:
@@ -90,9 +116,23 @@ def check(run, tier, seed):
         run.count(('mixed', c[0], tuple(c[1])), nontrivial=len(c[1]) >= 2)
 
 
+ORDER_FNS = [('identify_markov_boundary', identify_markov_boundary, 1)]
+
+
 def replay(run, path):
-    import json
-    c = json.loads(open(path).read())
+    _c = json.loads(open(path).read())
+    if _c.get('kind') == 'order_dependence':
+        return D.replay_order(run, _c, ORDER_FNS)
+    c = _c
+    if 'edit_steps' in c:
+        g = D.replay_mixed_steps(c['n'], c['edit_steps'])
+        ix = {D.NAMES[i]: i for i in range(c['n'])}
+        got = sorted(ix[x] for x in identify_colliders(g, unshielded_only=c['unshielded_only']))
+        exp = declarative_colliders(c['n'], [tuple(e) for e in c['mixed_edges']], c['unshielded_only'])
+        print('colliders after the edit history', got, 'declarative', exp)
+        if got != exp:
+            run.violation(dict(c, got=got), note='colliders after edits')
+        return 1 if run.violations else 0
     if 'mixed_edges' in c and 'node' in c:
         from cai_causal_graph.identify_utils import identify_markov_boundary
         mg = [tuple(e) for e in c['mixed_edges']]
